@@ -68,6 +68,11 @@ def race_build(chk, sc, tool):
     rc, o = chk.run([chk.GO, "build", "-race", "-o", toolbin, "./tools/" + tool], cwd=repo, env=env)
     if rc != 0:
         chk.die("real-scheduler monitor: %s does not build with -race:\n%s" % (tool, o))
+    if tool == "rdgen":
+        # the batch detector as a user would build it: the generator's output directory is handed to it
+        rc, o = chk.run([chk.GO, "build", "-o", os.path.join(sc.dir, "rddetector.bin"), "./tools/rddetector"], cwd=repo, env=env)
+        if rc != 0:
+            chk.die("real-scheduler monitor: rddetector does not build:\n%s" % o)
     return binp
 
 
@@ -112,7 +117,7 @@ def main(chk, a, tier, seed):
             try:
                 rbin = race_build(chk, sc, tool)
                 race["res"] = el.race_run(chk, rbin, work, prop, "quick" if tier == "quick" else "racethorough", seed, rev, replay_dir, 35 if tier == "quick" else 900,
-                                          extra_env={"VERIF_TOOL_BIN": os.path.join(sc.dir, tool + ".race.bin")})
+                                          extra_env={"VERIF_TOOL_BIN": os.path.join(sc.dir, tool + ".race.bin"), "VERIF_DETECTOR_BIN": os.path.join(sc.dir, "rddetector.bin")})
             except SystemExit as e:
                 race["exit"] = e.code
 
